@@ -233,21 +233,35 @@ func NewOrderExpr(scanner parser.Scanner, a, key Expr) Expr {
 		func(ctx context.Context, a, less Value, local Scope) (Value, error) {
 			if x, ok := a.(Set); ok {
 				if l, ok := less.(Closure); ok {
+					var orderErr error
 					values, err := OrderBy(x,
 						func(value Value) (Value, error) {
 							return value, nil
 						},
 						func(a, b Value) bool {
+							if orderErr != nil {
+								return false
+							}
 							c, err := SetCall(ctx, l, a)
 							if err != nil {
-								panic(err)
+								orderErr = err
+								return false
 							}
-							less, err := SetCall(ctx, c.(Closure), b)
+							cf, is := c.(Set)
+							if !is {
+								orderErr = errors.Errorf("'order' rhs must be a function of two arguments, got %s", ValueTypeAsString(c))
+								return false
+							}
+							less, err := SetCall(ctx, cf, b)
 							if err != nil {
-								panic(err)
+								orderErr = err
+								return false
 							}
 							return less.IsTrue()
 						})
+					if err == nil {
+						err = orderErr
+					}
 					if err != nil {
 						return nil, err
 					}
@@ -273,7 +287,11 @@ func NewRankExpr(scanner parser.Scanner, a, key Expr) Expr {
 						if err != nil {
 							return nil, err
 						}
-						return result.(Tuple), nil
+						t, is := result.(Tuple)
+						if !is {
+							return nil, errors.Errorf("'rank' rhs must produce a tuple, not %s", ValueTypeAsString(result))
+						}
+						return t, nil
 					})
 				}
 				return nil, errors.Errorf("'rank' rhs must be a function, not %s", ValueTypeAsString(a))
